@@ -510,12 +510,13 @@ class ModuleNormalizer:
                     if any(isinstance(n, (ast.Lambda, ast.ListComp, ast.SetComp, ast.DictComp, ast.GeneratorExp, ast.IfExp, ast.BoolOp, ast.NamedExpr, ast.Await, ast.Yield, ast.YieldFrom)) for n in ast.walk(s.value)):
                         continue
                     calls = [n for n in ast.walk(s.value) if isinstance(n, ast.Call)]
-                    hc = [c for c in calls if self._resolve(c, q, cls) is not None]
+                    hc = [c for c in calls if self._resolve(c, q, cls) is not None and _expr_of_body(self._resolve(c, q, cls)[0].body) is None]
                     if len(hc) != 1:
                         continue
                     inside = {id(n) for n in ast.walk(hc[0])}
                     # other calls may only be the ones the helper's result is an argument of (they run afterwards)
-                    if any(id(c) not in inside and not any(x is hc[0] for x in ast.walk(c)) for c in calls):
+                    # ... or calls of plain functions (`int(..)`, a module-level helper): they share no receiver with it
+                    if any(id(c) not in inside and not any(x is hc[0] for x in ast.walk(c)) and not isinstance(c.func, ast.Name) for c in calls):
                         continue
                     h = self._resolve(hc[0], q, cls)[0]
                     if _expr_of_body(h.body) is not None or _is_generator(h) or h is node or any(isinstance(n, ast.While) for n in ast.walk(h)):
